@@ -169,6 +169,11 @@ def check_accessor(run, f, rule='R8'):
             if kind is None:
                 continue
             v = tgt.id
+            used = any(isinstance(y, ast.Name) and y.id == v for b in bodies for y in ast.walk(b))
+            if not used and not v.startswith('_'):
+                n_ob += 1
+                run.violation(rule, subj, 'loop variable %s unused' % v, 'the per-element branch iterates %s but never uses the element %r: '
+                              'every result is computed from the same value' % (src(it), v), f=f, node=x)
             for b in bodies:
                 for y in ast.walk(b):
                     if isinstance(y, ast.Attribute) and isinstance(y.value, ast.Name) and y.value.id == v:
